@@ -32,9 +32,10 @@ CHECKS = {
     "C10": ("DESIGN.md 6/C10",
             "TLC-enumerated atom sequences and token mutations (MC_C10) + parametric long inputs + seeded random "
             "Unicode, each parsed by the real lexer/parser in a killable child process; outcome alphabet, "
-            "repeatability and termination checked; spec prediction compared as drift statistics",
-            "Exhaustive for all sequences of <=3 (thorough 4) of 36 lexical atoms and all single-token mutations of "
-            "all valid filters with <=1 (thorough 2) operators; sampled for long/random inputs. The oracle is the "
+            "repeatability (fresh instances, and one lexer/parser pair reused for the whole run) and termination checked; "
+            "the exact diagnosis of spec/Diag.tla (which error, at which token) is compared and reported as evidence",
+            "Exhaustive for all sequences of <=3 (thorough 4) of 38 lexical atoms and all single-token mutations of "
+            "all valid filters with <=1 (thorough 2) operators; sampled for long/random inputs (Trace_Diag). The oracle is the "
             "property's own statement, so no prediction can raise a false alarm.",
             "Trusted: harness/project.py outcome projection; 20 s wall-clock bound per input as 'terminates' "
             "(path length capped at 1500 segments because parsing is quadratic in path length)."),
@@ -102,27 +103,27 @@ CHECKS = {
             "TLC enumerates typed scalar filters (MC_Sem) and computes with the TLA+ evaluator Sem!Eval the valuations "
             "for which each filter is TRUE; replayed through AstToSqliteSqlVisitor on a real SQLite database; known deviations matched "
             "only if the result equals Sem under that named deviation",
-            "Exhaustive per profile (logic/arith/strings/misc) up to the operator bound plus TLC-simulated deep filters; "
+            "Exhaustive per profile (logic/arith/strings/misc/math/temporal/long) up to the operator bound plus TLC-simulated deep filters; "
             "result sets (row ids over the cross product of the value domain incl. NULLs, negatives, LIKE/SQL "
-            "metacharacters) must equal the spec's. Both the minimal and the fully parenthesised rendering are executed.",
+            "metacharacters, dates, times of day, GUIDs) must equal the spec's. Both the minimal and the fully parenthesised rendering are executed.",
             "Trusted: spec/Sem.tla (Kleene logic, NULL propagation; comparisons with NULL are unknown as the property "
             "states), SQLite 3.40, harness/backends.py fixtures. ASCII lower-case data; non-zero literal divisors."),
     "C02": ("DESIGN.md 6/C02",
             "TLC enumerates typed scalar filters (MC_Sem) and computes with the TLA+ evaluator Sem!Eval the valuations "
             "for which each filter is TRUE; replayed through odata_query.django.apply_odata_query (Django configured in-process by the harness) on a real SQLite database; known deviations matched "
             "only if the result equals Sem under that named deviation",
-            "Exhaustive per profile (logic/arith/strings/misc) up to the operator bound plus TLC-simulated deep filters; "
+            "Exhaustive per profile (logic/arith/strings/misc/math/temporal/long) up to the operator bound plus TLC-simulated deep filters; "
             "result sets (row ids over the cross product of the value domain incl. NULLs, negatives, LIKE/SQL "
-            "metacharacters) must equal the spec's. Quick: <=1 operator exhaustive + ~1000 simulated filters of up to 7 operators.",
+            "metacharacters, dates, times of day, durations, offset-bearing date-time literals) must equal the spec's. Quick: <=1 operator exhaustive + ~1000 simulated filters of up to 7 operators.",
             "Trusted: spec/Sem.tla (Kleene logic, NULL propagation; comparisons with NULL are unknown as the property "
             "states), SQLite 3.40, harness/backends.py fixtures. ASCII lower-case data; non-zero literal divisors."),
     "C03": ("DESIGN.md 6/C03",
             "TLC enumerates typed scalar filters (MC_Sem) and computes with the TLA+ evaluator Sem!Eval the valuations "
             "for which each filter is TRUE; replayed through apply_odata_query / apply_odata_core (select(Model), session.query(Model), select(table)) on a real SQLite database; known deviations matched "
             "only if the result equals Sem under that named deviation",
-            "Exhaustive per profile (logic/arith/strings/misc) up to the operator bound plus TLC-simulated deep filters; "
+            "Exhaustive per profile (logic/arith/strings/misc/math/temporal/long) up to the operator bound plus TLC-simulated deep filters; "
             "result sets (row ids over the cross product of the value domain incl. NULLs, negatives, LIKE/SQL "
-            "metacharacters) must equal the spec's. All three entry styles on every simulated and every 4th enumerated filter, the 2.x ORM style on all.",
+            "metacharacters, dates, times of day, GUID text) must equal the spec's. All three entry styles on every simulated and every 4th enumerated filter, the 2.x ORM style on all.",
             "Trusted: spec/Sem.tla (Kleene logic, NULL propagation; comparisons with NULL are unknown as the property "
             "states), SQLite 3.40, harness/backends.py fixtures. ASCII lower-case data; non-zero literal divisors."),
     "C04": ("DESIGN.md 6/C04",
